@@ -30,7 +30,7 @@ type Case struct {
 
 var dirs = []string{"recorded", "added", "removed", "modified", "line-endings-changed", "empty", "added-after-directory-link", "added-named-like-inspection-link"}
 var commands = []string{"true", "create-n", "modify-f", "delete-g", "exit-1", "exit-2", "exit-127", "exit-255", "killed", "missing-executable", "empty-command", "stdout-1MiB"}
-var rulesets = []string{"permissive", "match-last-step", "require-f", "create-n", "malformed", "none", "match-strict", "modify-n"}
+var rulesets = []string{"permissive", "match-last-step", "require-f", "create-n", "malformed", "none", "match-strict", "modify-n", "require-then-match"}
 
 func h(content string) string {
 	s := sha256.Sum256([]byte(content))
@@ -123,6 +123,10 @@ func ruleLists(name, prefix string) (mat, prod [][]string) {
 		return [][]string{match, {"ALLOW", "*.link"}, {"DISALLOW", "*"}}, [][]string{match, {"ALLOW", "*.link"}, {"DISALLOW", "*"}}
 	case "require-f":
 		return [][]string{{"REQUIRE", p("f")}, {"ALLOW", "*"}}, [][]string{{"REQUIRE", p("g")}, {"ALLOW", "*"}}
+	case "require-then-match":
+		// REQUIRE only demands presence: the file is still compared with the step link by the rule that follows
+		l := [][]string{{"REQUIRE", p("f")}, {"REQUIRE", p("g")}, match, {"ALLOW", "*.link"}, {"DISALLOW", "*"}}
+		return l, l
 	case "create-n":
 		return [][]string{{"ALLOW", "*"}}, [][]string{{"CREATE", p("n")}, match, {"ALLOW", "*.link"}, {"DISALLOW", "*"}}
 	case "malformed":
@@ -148,11 +152,11 @@ func expected(cs Case, runDir string) (accept bool, dontcare bool, log []int, wh
 	if cs.Steps != "ok" && cs.Steps != "ok-sha512" {
 		return false, false, nil, "step check fails"
 	}
-	if cs.Entry == 1 && len(dirContent(cs.Dir)) == 0 {
+	if cs.Entry >= 1 && len(dirContent(cs.Dir)) == 0 {
 		return false, true, nil, "empty run directory is refused by the entry point"
 	}
 	prefix := ""
-	if cs.Entry == 1 {
+	if cs.Entry >= 1 {
 		prefix = runDir + "/"
 	}
 	state := dirContent(cs.Dir)
@@ -213,8 +217,13 @@ func execute(c *mcx.Ctx, cs Case) (obs, sig, class string) {
 	linkDir := gen.FreshDir(base, "links")
 	fdir := gen.FreshDir(base, "fs") // the verification directory (cwd or run directory)
 	cwd := fdir
+	rd := fdir // the run directory as handed to the entry point
 	if cs.Entry == 1 {
 		cwd = gen.FreshDir(base, "cwd")
+	}
+	if cs.Entry == 2 {
+		// the run directory is named relative to the working directory
+		cwd, rd = base, "fs"
 	}
 	logf := filepath.Join(base, "commands.log")
 	for name, content := range dirContent(cs.Dir) {
@@ -248,8 +257,8 @@ func execute(c *mcx.Ctx, cs Case) (obs, sig, class string) {
 		})
 	}
 	prefix := ""
-	if cs.Entry == 1 {
-		prefix = fdir + "/"
+	if cs.Entry >= 1 {
+		prefix = rd + "/"
 	}
 	var insp []intoto.Inspection
 	for i, cmd := range cs.Commands {
@@ -264,7 +273,7 @@ func execute(c *mcx.Ctx, cs Case) (obs, sig, class string) {
 	if cs.Entry == 0 {
 		_, err = intoto.InTotoVerify(md, keys, linkDir, "", map[string]string{}, nil, false)
 	} else {
-		_, err = intoto.InTotoVerifyWithDirectory(md, keys, linkDir, fdir, "", map[string]string{}, nil, false)
+		_, err = intoto.InTotoVerifyWithDirectory(md, keys, linkDir, rd, "", map[string]string{}, nil, false)
 	}
 	os.Chdir("/")
 	c.Impl(1)
@@ -276,7 +285,7 @@ func execute(c *mcx.Ctx, cs Case) (obs, sig, class string) {
 			got = append(got, v)
 		}
 	}
-	accept, dc, wantLog, why := expected(cs, fdir)
+	accept, dc, wantLog, why := expected(cs, rd)
 	obs = fmt.Sprintf("accepted=%v commands-executed=%v; reference: accept=%v (%s) executed=%v", err == nil, got, accept, why, wantLog)
 	if err != nil {
 		obs += "; error: " + clip(err.Error())
@@ -345,8 +354,16 @@ func enumerate(thorough bool, emit func(Case)) {
 			}
 		}
 	}
-	for _, entry := range []int{0, 1} {
+	for _, entry := range []int{0, 1, 2} {
 		for _, dir := range dirs {
+			if entry == 2 {
+				// relative run directory: every single inspection, both wrappers
+				rec(1, nil, nil, func(cm, ru []string) {
+					emit(Case{Dir: dir, Commands: cm, Rules: ru, Entry: entry, Steps: "ok"})
+					emit(Case{Dir: dir, Commands: cm, Rules: ru, Entry: entry, Steps: "ok", DSSE: true})
+				}, commands, rulesets)
+				continue
+			}
 			for n := 0; n <= 2; n++ {
 				menu := commands
 				if n == 2 && !thorough {
